@@ -10,6 +10,7 @@ relation sets of all orders of one graph must coincide.
 """
 import os
 import random
+import tempfile
 
 from gvmon import dbdump
 from gvmon.gen import graphs as G
@@ -20,7 +21,7 @@ RULE = ("GFF3 annotation graphs: DAGs of 1-4 layers and <= 12 lines, every line 
         "earlier layer (shared children, multi-parent lines, 'diamond + shortcut' a->b->c plus a->c) or naming no line at "
         "all (dangling), Parent written as a comma list or as repeated keys, ID before or after Parent; each graph is "
         "imported under several line orders (parents first, children first, random; every permutation for <= 5 lines "
-        "[quick, a sample of the graphs] / <= 6 lines [thorough]). Word-like ids ([A-Za-z0-9_.:-]) form the main class; "
+        "[quick: a sample of the graphs; thorough: all of them, plus a sample of the 6-line graphs]). Word-like ids ([A-Za-z0-9_.:-]) form the main class; "
         "a separate 'hostile id' class renames 1-3 ids to ones with blanks inside / at the ends, non-ASCII characters, "
         "U+0085/U+00A0 or percent-escaped TAB/LF. non-trivial = >= 1 multi-parent line or >= 1 level-2 pair or a dangling "
         "Parent value; distinct = canonical edge list + line order")
@@ -210,6 +211,15 @@ def one_import(ctx, case, oi, order, rel, lower, upper):
         for p in (src, dbfn):
             if p and p != ":memory:" and os.path.exists(p):
                 os.unlink(p)
+        if src is None:
+            # from_string=True: gffutils leaves its own copy of the string in the temp directory (C20's F-C20-1)
+            tdir = tempfile.gettempdir()
+            if tdir.startswith(ctx.scratch):
+                for name in os.listdir(tdir):
+                    try:
+                        os.unlink(os.path.join(tdir, name))
+                    except OSError:
+                        pass
 
 
 def argument_query(ctx, case, db, q, rel, byid, busy, order, text):
@@ -313,10 +323,10 @@ def run(ctx):
     rng = ctx.rng
     thorough = ctx.tier == "thorough"
     # 1. word-like ids (first: its violations are reported before those of the hostile class)
-    for i in range(ctx.budget(320, 24000)):
+    for i in range(ctx.budget(900, 24000)):
         g = G.graph(rng)
         n = len(g["nodes"])
-        every = n <= (6 if thorough else 5) and (thorough or i % 6 == 0) and n > 1
+        every = n > 1 and (n <= 5 or (n == 6 and i % 8 == 0)) if thorough else (1 < n <= 5 and i % 6 == 0)
         case = {"kind": "graph", "ids": "word", "graph": g, "qseed": rng.randrange(10 ** 9),
                 "orders": "all" if every else G.sample_orders(rng, n, 4),
                 "nqueries": 3 if every else 8,
@@ -326,7 +336,7 @@ def run(ctx):
         execute(ctx, case)
         account(ctx, case)
     # 2. hostile ids (separate class; DESIGN F-C02-1)
-    for _ in range(ctx.budget(120, 6400)):
+    for _ in range(ctx.budget(300, 6400)):
         g = G.graph(rng, max_nodes=8)
         flavours = G.make_hostile(rng, g)
         if not flavours:
